@@ -241,8 +241,11 @@ func run(e *core.Env) {
 		want := tp.Intn(10)
 		switch want {
 		case 0:
+			// X starts a key setup as the shipped code does when it has no keys for V (any more)
+			_ = X.State.SetEncryptionSession(V.IP, nil)
 			_, _ = X.Router.HelloPing.Send(V.IP)
 		case 1: // V asks, X answers: capture the response
+			_ = V.State.SetEncryptionSession(X.IP, nil)
 			_, _ = V.Router.HelloPing.Send(X.IP)
 			simnet.Wait()
 			for _, p := range ms.Net.Pending() {
